@@ -38,28 +38,36 @@ def mkCell (eq : α → α → Bool) (C : Costs) (x y : α) (diag up left : Cell
     let m := min (min ins del) rep
     if m = rep then ⟨.rep, m + C.R⟩ else if m = del then ⟨.del, m + C.D⟩ else ⟨.ins, m + C.I⟩
 
-/-- the scan computing the cells `1..` of a row from the previous row -/
-def scanRow (eq : α → α → Bool) (C : Costs) (x : α) : Cell → Cell → List Cell → List α → List Cell
+/-- the type of a cell rule: element equality, costs, the two elements, then the diagonal / upper / left neighbours -/
+abbrev CellRule (α : Type) := (α → α → Bool) → Costs → α → α → Cell → Cell → Cell → Cell
+
+/-- the scan computing the cells `1..` of a row from the previous row, for a given cell rule -/
+def scanRowG (mk : CellRule α) (eq : α → α → Bool) (C : Costs) (x : α) : Cell → Cell → List Cell → List α → List Cell
   | diag, left, up :: ups, y :: ys =>
-    let c := mkCell eq C x y diag up left
-    c :: scanRow eq C x up c ups ys
+    let c := mk eq C x y diag up left
+    c :: scanRowG mk eq C x up c ups ys
   | _, _, _, _ => []
 
 /-- row 0 : `Delete(j * DELETE_COST)` -/
 def row0 (C : Costs) (s : List α) : List Cell := (List.range (s.length + 1)).map fun j => ⟨.del, j * C.D⟩
 
 /-- the next row for target element `x` (cell 0 is `Insert(prev[0] + INSERT_COST)`) -/
-def nextRow (eq : α → α → Bool) (C : Costs) (x : α) (prev : List Cell) (s : List α) : List Cell :=
+def nextRowG (mk : CellRule α) (eq : α → α → Bool) (C : Costs) (x : α) (prev : List Cell) (s : List α) : List Cell :=
   match prev with
   | [] => []
   | p0 :: ps =>
     let c0 : Cell := ⟨.ins, p0.cost + C.I⟩
-    c0 :: scanRow eq C x p0 c0 ps s
+    c0 :: scanRowG mk eq C x p0 c0 ps s
 
 /-- the row reached after processing the target elements `tr.reverse` (`tr` = reversed processed prefix) -/
-def rowOf (eq : α → α → Bool) (C : Costs) (s : List α) : List α → List Cell
+def rowOfG (mk : CellRule α) (eq : α → α → Bool) (C : Costs) (s : List α) : List α → List Cell
   | [] => row0 C s
-  | x :: tr => nextRow eq C x (rowOf eq C s tr) s
+  | x :: tr => nextRowG mk eq C x (rowOfG mk eq C s tr) s
+
+/-- the full-table rule -/
+def scanRow (eq : α → α → Bool) (C : Costs) (x : α) := scanRowG mkCell eq C x
+def nextRow (eq : α → α → Bool) (C : Costs) (x : α) (prev : List Cell) (s : List α) : List Cell := nextRowG mkCell eq C x prev s
+def rowOf (eq : α → α → Bool) (C : Costs) (s : List α) (tr : List α) : List Cell := rowOfG mkCell eq C s tr
 
 /-- `create_full_change_table` : all rows, row `i` for the target prefix of length `i` -/
 def tableRows (eq : α → α → Bool) (C : Costs) (s : List α) : List α → List Cell → List (List Cell)
@@ -115,22 +123,7 @@ def mkCellLR (eq : α → α → Bool) (C : Costs) (x y : α) (diag up left : Ce
     let m := min (min ins del) rep
     if m = rep then ⟨.rep, m + C.R⟩ else if m = del then ⟨.del, m + C.D⟩ else ⟨.ins, m + C.I⟩
 
-def scanRowLR (eq : α → α → Bool) (C : Costs) (x : α) : Cell → Cell → List Cell → List α → List Cell
-  | diag, left, up :: ups, y :: ys =>
-    let c := mkCellLR eq C x y diag up left
-    c :: scanRowLR eq C x up c ups ys
-  | _, _, _, _ => []
-
-def nextRowLR (eq : α → α → Bool) (C : Costs) (x : α) (prev : List Cell) (s : List α) : List Cell :=
-  match prev with
-  | [] => []
-  | p0 :: ps =>
-    let c0 : Cell := ⟨.ins, p0.cost + C.I⟩
-    c0 :: scanRowLR eq C x p0 c0 ps s
-
-def rowOfLR (eq : α → α → Bool) (C : Costs) (s : List α) : List α → List Cell
-  | [] => row0 C s
-  | x :: tr => nextRowLR eq C x (rowOfLR eq C s tr) s
+def rowOfLR (eq : α → α → Bool) (C : Costs) (s : List α) (tr : List α) : List Cell := rowOfG mkCellLR eq C s tr
 
 /-- `create_last_change_row`, forward variant : last row for the segments -/
 def lastRowFwd (eq : α → α → Bool) (C : Costs) (tseg sseg : List α) : List Cell := rowOfLR eq C sseg tseg.reverse
